@@ -768,10 +768,22 @@ fn pick_next_blocked(is_client: bool, only_case: u64) {
     let mut case = only_case;
     while case <= only_case {
         // packet queued before, exactly at, or after the expiry of the blocking
-        let pkt_time = t0 + Duration::from_secs(2 + 3 * case);
-        let none: &[Machine] = &[];
+        // case 3: packet before the expiry AND an action of a machine on that side due exactly at the expiry
+        let pkt_time = t0 + Duration::from_secs(if case == 3 { 2 } else { 2 + 3 * case });
+        let one = [noop_machine()];
+        let none: &[Machine] = if case == 3 { &one[..] } else { &[] };
         let mut client = state_with(none, t0);
         let mut server = state_with(none, t0);
+        if case == 3 {
+            let action = TriggerAction::BlockOutgoing { timeout: Duration::from_secs(5), duration: Duration::from_secs(10), bypass: kani::any(),
+                replace: kani::any(), machine: MachineId::from_raw(0) };
+            let sa = Some(ScheduledAction { action, time: until });
+            if is_client {
+                client.scheduled_action[0] = sa;
+            } else {
+                server.scheduled_action[0] = sa;
+            }
+        }
         let mut network = crate::network::verif_kani::small_bottleneck(Network::new(Duration::from_micros(1000), None), Duration::from_secs(1), usize::MAX, Duration::ZERO);
         let mut sq = empty_queue();
         client.blocking_bypassable = kani::any();
@@ -793,6 +805,8 @@ fn pick_next_blocked(is_client: bool, only_case: u64) {
         if next.event == TriggerEvent::TunnelSent {
             let may_bypass = bypassable && pkt_bypass;
             assert!(may_bypass || next.time >= until, "C16: nothing leaves a blocked side before the blocking ends unless that side's blocking allows bypass and the packet may bypass");
+            assert!(may_bypass || side_until.is_none() || pkt_time >= until,
+                "C16: a held-back packet leaves only after the end of the blocking was reported by BlockingEnd at the expiry (also when an action is due at that same instant)");
             assert!(next.time >= pkt_time && (next.time == pkt_time || next.time == until), "C15: a packet leaves at its own time or when the blocking that held it ends");
             assert!(next.contains_padding == padding && sq.len() == 0, "C15: the packet that leaves is the packet that was queued");
             seen_bypass |= next.time < until;
@@ -806,9 +820,10 @@ fn pick_next_blocked(is_client: bool, only_case: u64) {
         core::mem::forget(server);
         core::mem::forget(network);
         core::mem::forget(next);
+        core::mem::forget(one);
         case += 1;
     }
-    if only_case == 0 {
+    if only_case == 0 || only_case == 3 {
         kani::cover!(seen_bypass, "packet bypassed active blocking");
         kani::cover!(seen_held, "packet held back until BlockingEnd");
     } else {
@@ -831,6 +846,8 @@ pnb!(s_pick_next_blocked_server_before, false, 0);
 pnb!(s_pick_next_blocked_client_at, true, 1);
 pnb!(s_pick_next_blocked_server_at, false, 1);
 pnb!(s_pick_next_blocked_client_after, true, 2);
+pnb!(s_pick_next_blocked_client_tie, true, 3);
+pnb!(s_pick_next_blocked_server_tie, false, 3);
 pnb!(s_pick_next_blocked_server_after, false, 2);
 
 // ------------------------------------------------------------------------------------------
